@@ -130,6 +130,9 @@ def _upstream() -> Tuple[Dict[str, ast.FunctionDef], str, str]:
     with open(path) as f:
         src = f.read()
     tree = ast.parse(src)
+    from ..source import _canonicalise
+
+    _canonicalise(tree)
     ver = ""
     try:
         with open(os.path.join(os.path.dirname(spec.origin), "__init__.py")) as f:
@@ -204,8 +207,9 @@ def _explained(kind: str, ups: List[str], ours: List[str]) -> Optional[str]:
         if not ups and ours == ["self.extra_data = getattr(_L, 'extra_data', {})"]:
             return "extra_data added for Django >= 5.1 compatibility"
     if kind == "render":
-        flag = ("if not hasattr(self, '_djc_is_component_nested')", "else", "_L = True", "_L = not self._djc_is_component_nested")
-        if not ups and ours and all(x in flag for x in ours) and ours[0] == flag[0]:
+        # (modules are loaded in canonical form: `if not C: A else: B` is seen as `if C: B else: A`)
+        flag = ("if hasattr(self, '_djc_is_component_nested')", "if not hasattr(self, '_djc_is_component_nested')", "else", "_L = True", "_L = not self._djc_is_component_nested")
+        if not ups and ours and all(x in flag for x in ours) and ours[0] in flag[:2]:
             return "computation of isolated_context from the component-nesting flag"
         if ups == ["with context.render_context.push_state(self)"] and ours == ["with context.render_context.push_state(self, isolated_context=_L)"]:
             return "push_state parametrised with isolated_context"
